@@ -2,6 +2,6 @@
    (ExtrOcamlBasic + ExtrOcamlString only; N/Z/positive/nat stay inductive). *)
 From Coq Require Import List ZArith NArith.
 From Coq Require Import ExtrOcamlBasic ExtrOcamlString.
-From Mimium Require Import Prims.Float Prims.StateOps Prims.Spec Prims.Impl Prims.Vm Prims.Wasm Prims.Pre.
+From Mimium Require Import Prims.Float Prims.StateOps Prims.Spec Prims.Impl Prims.Vm Prims.Wasm Prims.Pre Prims.Usersum.
 Extraction "prims_model.ml" spec_init spec_step sres_fault vm_init vm_step wasm_init wasm_step tabs0 tabs_after
-  ires_fault resolve vm_prim_array_get vm_prim_array_set st_words vm_pre wasm_pre f64_to_i64 f64_to_u64 f64_of_N f64_time.
+  ires_fault resolve vm_prim_array_get vm_prim_array_set st_words vm_pre wasm_pre vm_usersum_clone vm_usersum_release wasm_usersum_clone wasm_usersum_release ty_size f64_to_i64 f64_to_u64 f64_of_N f64_time.
